@@ -43,18 +43,26 @@ impl<'a> BerDecoder<'a> for SnmpReal {
 
                 // 8.5.7.4 Bits 2 to 1 of the first contents octet
                 // shall encode the format of the exponent as follows:
-                let ln = (f & 0x03) as usize + 2;
-                let e = SnmpReal::parse_u32(&i[1..ln]) as i32;
-                let mut v: f64 = SnmpReal::parse_u32(&i[ln..]).into();
-                // 8.5.7.3: Bits 4 to 3 of the first contents octet shall
-                // encode the value of the binary scaling factor F
-                // as an unsigned binary integer.
-                match (f & 0x0c) >> 2 {
-                    1 => v *= 2.0,
-                    2 => v *= 4.0,
-                    3 => v *= 8.0,
-                    _ => return Err(SnmpError::InvalidData),
+                // 00, 01, 10 - exponent occupies 1, 2, 3 octets,
+                // 11 - the next octet holds the length of the exponent
+                let (e_start, e_len) = match f & 0x03 {
+                    3 => (2, *i.get(1).ok_or(SnmpError::InvalidData)? as usize),
+                    n => (1, n as usize + 1),
+                };
+                let m_start = e_start + e_len;
+                if e_len == 0 || e_len > 8 || i.len() <= m_start {
+                    return Err(SnmpError::InvalidData);
                 }
+                // The exponent is a two's complement binary number
+                let e_init: i64 = if i[e_start] & 0x80 == 0 { 0 } else { -1 };
+                let e = i[e_start..m_start]
+                    .iter()
+                    .fold(e_init, |acc, x| (acc << 8) | (*x as i64));
+                // 8.5.7.5: The remaining contents octets encode the value
+                // of the integer N as an unsigned binary integer.
+                let mut v = i[m_start..]
+                    .iter()
+                    .fold(0.0f64, |acc, x| acc * 256.0 + (*x as f64));
                 // 8.5.7.2: Bits 6 to 5 of the first contents octets
                 // shall encode the value of the base B' as follows:
                 // Bits6to5 => Base
@@ -62,13 +70,24 @@ impl<'a> BerDecoder<'a> for SnmpReal {
                 // 01 => base 8
                 // 10 => base 16
                 // 11 => Reserved for further editions of this Recommendation | International Standard.
-                let base: f64 = match f & 0x30 {
-                    0 => 2.0,
-                    0x10 => 8.0,
-                    0x20 => 16.0,
+                let base_bits: i64 = match f & 0x30 {
+                    0 => 1,
+                    0x10 => 3,
+                    0x20 => 4,
                     _ => return Err(SnmpError::InvalidData),
                 };
-                v *= base.powi(e);
+                // 8.5.7.3: Bits 4 to 3 of the first contents octet shall
+                // encode the value of the binary scaling factor F
+                // as an unsigned binary integer.
+                let scale = ((f & 0x0c) >> 2) as i64;
+                // M = S * N * 2^F, value = M * B^E. All the bases are powers of two,
+                // apply the power in two steps to stay in range.
+                let p = e
+                    .saturating_mul(base_bits)
+                    .saturating_add(scale)
+                    .clamp(-2200, 1100) as i32;
+                v *= 2.0f64.powi(p / 2);
+                v *= 2.0f64.powi(p - p / 2);
                 // 8.5.7.1: Bit 7 of the first contents octets
                 // shall be 1 if S is –1 and 0 otherwise.
                 if f & 0x40 == 0x40 {
@@ -110,16 +129,6 @@ impl<'a> BerDecoder<'a> for SnmpReal {
             0b01000011 => -0.0,
             _ => return Err(SnmpError::InvalidData),
         }))
-    }
-}
-
-impl SnmpReal {
-    fn parse_u32(i: &[u8]) -> u32 {
-        let mut v = 0u32;
-        for &n in i.iter() {
-            v = (v << 8) | (n as u32);
-        }
-        v
     }
 }
 
